@@ -7,7 +7,7 @@ from ..engine import oracle
 from ..front import norm, walk_no_nested
 from ..symeval import is_const, show
 from . import shared as SH
-from .util import is_func_call, leaves, mentions
+from .util import is_func_call, leaves, mentions, subterms
 
 META = {
     "explanation": (
@@ -104,6 +104,22 @@ def run(eng, ctx):
             order = args[1] if len(args) > 1 else kw.get("byteorder")
             signed = kw.get("signed", ("const", False))
             ok = ok and n == ("const", width) and order == ("const", fr["length_byteorder"]) and signed == ("const", False)
+            if not ok and not e.guards:
+                # equivalent byte packing: bytes((v >> 16, (v >> 8) & 0xFF, v & 0xFF)) for a value known to fit (the 24-bit CRC)
+                segs = CatContext().to_cat(t)
+                src = ("call",)  # find the inner call term v
+                inner_calls = [st for st in subterms(t) if isinstance(st, tuple) and st and st[0] == "call" and st[2] == inner and st[3] == (par,)]
+                if segs and len(segs) == width and all(sg[0] == "int8" for sg in segs) and inner_calls and inner == ("func", "rtcmhelpers.calc_crc24q"):
+                    from ..domains import BVContext
+
+                    bvc = BVContext()
+                    bvc.declare(inner_calls[0], "v", 8 * width)  # calc_crc24q returns a value below 2^24 (C08-D1: returned value = the 24-bit state)
+                    good = True
+                    for i, sg in enumerate(segs):
+                        bv = bvc.to_bv(sg[1])
+                        lo = 8 * (width - 1 - i)
+                        good = good and bv is not None and bv.known() and bv.width() <= 8 and all(bv.bit(k) == bvc.syms.bit(f"v.b{lo + k}") for k in range(8))
+                    ok = good
             ctx.check(bool(ok), "C07.D1", qual, f"{label} helper", expected=f"{show(inner)}(x).to_bytes({width}, '{fr['length_byteorder']}')", found=show(t)[:100], **eng.loc(f, e.node))
         ctx.check(len(r2) == 1, "C07.D1", qual, "single return", expected="1", found=str(len(r2)), **eng.loc(f, f.node))
     hdr = eng.ce.value("rtcmtypes_core", "RTCM_HDR")
